@@ -6,7 +6,7 @@
    that holds the line as a C string.  It is implied by every picture of a line buffer the other developments use
    (TrSpliceAll.lbuf_at, TrUndoBase.urep with TrCmp4.Tc, TrVimot.lbuf_at, TrExCmds' views): the adapters are in coq/TrLbufCpUse.v.
 
-   tr_lbuf_cp: for EVERY such memory, every 0 <= beg and every end (also end < beg: the empty copy; also end > ln_n: the rows outside the
+   tr_lbuf_cp: for EVERY such memory, every beg >= 0 and every end (also end < beg: the empty copy; also end > ln_n: the rows outside the
    table are skipped) the call returns a pointer to the START of a block that did not exist before, which begins with exactly the bytes
    of rows beg..end-1 one after the other followed by the terminator (the block is LONGER than the string: it is the buffer sbuf_done
    hands out, of the capacity sbuf.c's growth rule reached); every block that existed before is unchanged; the struct sbuf -- the first
@@ -135,7 +135,7 @@ End Loop.
 
 (* ------------------------------------------------------------------ the whole function *)
 Theorem tr_lbuf_cp m bl lines b e d fuel :
-  cp_view m bl lines -> 0 <= b <= 2147483647 -> -2147483648 <= e <= 2147483647 ->
+  cp_view m bl lines -> 0 <= b -> -2147483648 <= e <= 2147483647 ->
   total (cp_rows lines b e) <= 500000000 -> (Z.to_nat (e - b) < fuel)%nat ->
   exists pb m' rest,
     callf cprog fuel (S (S (S (S d)))) F_lbuf_cp [VPtr bl 0; VInt b; VInt e] m = Ok (VPtr pb 0, m') /\
